@@ -38,6 +38,7 @@ type graphRec struct {
 	C    bool   `json:"c"`    // Constructed
 	Pre  bool   `json:"pre"`  // IsPreSummarized
 	Full bool   `json:"full"` // every node / edge / table of this summary is in the snapshot
+	Reg  bool   `json:"reg"`  // FlowGraph.Summaries[Parent] is this summary (it is part of the graph's summary table)
 	// link tables of the summary (for stub summaries: only the keys the full summaries refer to)
 	Cs     [][2]int `json:"cs"`     // Callsites: site, registered call node
 	Ref    [][2]int `json:"ref"`    // ReferringMakeClosures: make-closure instruction, registered closure node
@@ -128,7 +129,8 @@ func (b *builder) graph(g *df.SummaryGraph) int {
 	if g.Parent != nil {
 		name = g.Parent.String()
 	}
-	b.snap.Graphs = append(b.snap.Graphs, graphRec{Fn: name, C: g.Constructed, Pre: g.IsPreSummarized,
+	reg := g.Parent != nil && b.state != nil && b.state.FlowGraph.Summaries[g.Parent] == g
+	b.snap.Graphs = append(b.snap.Graphs, graphRec{Fn: name, C: g.Constructed, Pre: g.IsPreSummarized, Reg: reg,
 		Cs: [][2]int{}, Ref: [][2]int{}, Rets: [][2]int{}, Params: [][2]int{}, Fvs: [][2]int{}})
 	b.gid[g] = len(b.snap.Graphs)
 	return len(b.snap.Graphs)
@@ -478,6 +480,7 @@ type dumper struct {
 	skipDummy int
 	nstarts   int
 	seed      int64
+	panicked  bool
 }
 
 func (d *dumper) emit(b *builder) {
@@ -612,8 +615,33 @@ func (d *dumper) stepSnapshot(st *df.AnalyzerState, sm *df.SummaryGraph) {
 	for _, cl := range sm.ReferringMakeClosures {
 		add(cl.Graph())
 	}
+	// the converse direction: every summary that has a call / closure node linked TO the summary just built
+	for _, g := range st.FlowGraph.Summaries {
+		if g == nil || g == sm {
+			continue
+		}
+		hit := false
+		for _, m := range g.Callees {
+			for _, cn := range m {
+				if cn.CalleeSummary == sm {
+					hit = true
+				}
+			}
+		}
+		for _, cl := range g.CreatedClosures {
+			if cl.ClosureSummary == sm {
+				hit = true
+			}
+		}
+		if hit {
+			add(g)
+		}
+	}
 	sort.Slice(linked, func(i, j int) bool { return linked[i].Parent.String() < linked[j].Parent.String() })
 	for _, g := range linked {
+		if b.full[g] {
+			continue
+		}
 		k := 0
 		allNodes(g, func(df.GraphNode) { k++ })
 		if len(b.snap.Nodes)+k > d.maxNodes/4 {
@@ -760,7 +788,17 @@ func runBacktrace(d *dumper, cfg *config.Config, prog *ssa.Program, pkgs []*pack
 			cfg.SlicingProblems = []config.SlicingSpec{ss}
 		}
 	}
-	res, err := backtrace.Analyze(config.NewLogGroup(cfg), cfg, prog, pkgs)
+	var res backtrace.AnalysisResult
+	var err error
+	func() {
+		defer func() {
+			if r := recover(); r != nil {
+				err = fmt.Errorf("analysis panicked: %v", r)
+				d.panicked = true
+			}
+		}()
+		res, err = backtrace.Analyze(config.NewLogGroup(cfg), cfg, prog, pkgs)
+	}()
 	if res.Graph.AnalyzerState != nil {
 		state = res.Graph.AnalyzerState
 	}
@@ -770,7 +808,10 @@ func runBacktrace(d *dumper, cfg *config.Config, prog *ssa.Program, pkgs []*pack
 		}
 		return fmt.Errorf("backtrace: no analyzer state")
 	}
-	d.fullSnapshot(state, "final")
+	d.fullSnapshot(state, "final") // also after a panic of the visitor: the graph it left behind is what later passes would see
+	if d.panicked {
+		return err
+	}
 	return nil // errors of the analysis itself (reported traces etc.) are not this check's business
 }
 
